@@ -5,6 +5,7 @@
      class HEX      outcome class only                     OK | ERR | HANG
      show SEXPR     text of a generated compilation unit:  HEX(show (pp_unit u)) <space> canonical S-expression of u
      showe SEXPR    the same for one expression (the text is the expression alone)
+     semcheck HEX   the program's top-level statements executed over the evaluation model: OK | SEMERR <index of the statement> | SKIP
      eval ENV | SEXPR   evaluation of one expression (lang/Eval.v). ENV = comma separated  name:a:<id>:<n>/<d>  (an arithmetic
                     variable, its identifier in the network and its value) or  name:b:<id>:<0|1>  (a boolean variable).
                     Answer:  A <n>/<d> <n>/<d>   value of the evaluated linear expression | value the expression denotes
@@ -67,6 +68,44 @@ let eval_line (arg : string) : string =
   | None, _ -> "NONE"
   | Some _, _ -> "?mismatch"
 
+(* semcheck: the top-level statements of a program executed over the evaluation model (lang/Eval.v): variables of primitive
+   type are fresh network variables (or what their initialiser evaluates to), an expression statement must evaluate to a
+   boolean. Programs with declarations, disjunctions, formulas or assignments are outside this small interpreter: SKIP. *)
+let semcheck_line (input : char list) : string =
+  match lex input with
+  | LErr e -> "ERR lex:" ^ out_lex_err e
+  | LHang -> "HANG"
+  | LOk ts ->
+    (match parse ts with
+     | Err _ -> "ERR syntax"
+     | OutOfFuel -> "HANG"
+     | Ok (u, _) ->
+       if u.cu_types <> [] || u.cu_methods <> [] || u.cu_preds <> [] then "SKIP"
+       else begin
+         let env : (char list * value) list ref = ref [] in
+         let next = ref 0 in
+         let rho q = match q with [x] -> List.assoc_opt x !env | _ -> None in
+         let prim = List.map chars_of_string ["bool"; "int"; "real"; "tp"; "string"] in
+         let rec go i ss =
+           match ss with
+           | [] -> "OK"
+           | SExpr e :: r -> (match ev rho e with Some (VBool _) -> go (i + 1) r | _ -> "SEMERR " ^ string_of_int i)
+           | SLocal ([t], vs) :: r when List.mem t prim ->
+             let rec decl vs =
+               match vs with
+               | [] -> true
+               | (x, None) :: r' ->
+                 incr next;
+                 let v = if t = chars_of_string "bool" then VBool (FVar (n_of_int !next))
+                   else if t = chars_of_string "string" then VStr []
+                   else VArith (lin_ctor_var (n_of_int !next) rat_ONE) in
+                 env := (x, v) :: !env; decl r'
+               | (x, Some e) :: r' -> (match ev rho e with Some v -> env := (x, v) :: !env; decl r' | None -> false) in
+             if decl vs then go (i + 1) r else "SEMERR " ^ string_of_int i
+           | _ -> "SKIP" in
+         go 0 u.cu_stmts
+       end)
+
 let () =
   try
     while true do
@@ -83,6 +122,7 @@ let () =
           | "pexpr" -> parse_line (unhex arg @ [' '; ';']) true
           | "show" -> let u = in_unit (read_sx arg) in hex_of (show (pp_unit u)) ^ " " ^ out_unit u
           | "eval" -> eval_line arg
+          | "semcheck" -> semcheck_line (unhex arg)
           | "showe" -> let e = in_expr (read_sx arg) in hex_of (show (pp e)) ^ " " ^ out_expr e
           | _ -> "?unknown"
         with Failure m -> "?failure " ^ m | Not_found -> "?notfound" | Stack_overflow -> "?stack-overflow"
